@@ -147,7 +147,17 @@ fn attr_local_collision(w: &World, st: &Step) -> bool {
     }
 }
 
+/// a DocumentFragment offered as new child (DocumentFragment is a stub in this library: every insertion is refused)
+fn fragment_insert(w: &World, st: &Step) -> bool {
+    let is_frag = |s: &S| kind_of(w, *s) == Some(Kind::Fragment);
+    match &st.op {
+        Op::InsertBefore { new, .. } | Op::AppendChild { new, .. } | Op::ReplaceChild { new, .. } => is_frag(new),
+        _ => false,
+    }
+}
+
 pub const TRIGGERS: &[(&str, Pred)] = &[
+    ("fragment_insert", fragment_insert),
     ("attr_local_collision", attr_local_collision),
     ("factory_unstorable_data", factory_unstorable_data),
     ("doctype_moved", doctype_moved),
